@@ -13,7 +13,8 @@ use std::time::Duration;
 
 fn free_port() -> u16 { TcpListener::bind("127.0.0.1:0").unwrap().local_addr().unwrap().port() }
 
-fn start() -> SocketAddr {
+fn start() -> (SocketAddr, connlib::Mon) {
+    let (moncfg, mon) = connlib::mon_new();
     let port = free_port();
     let addr: SocketAddr = format!("127.0.0.1:{}", port).parse().unwrap();
     std::thread::spawn(move || {
@@ -25,28 +26,30 @@ fn start() -> SocketAddr {
                 .with_stateless_route("/echo", |r: Request| async move { Response::new(StatusCode::OK, r.content.unwrap_or_default()) })
                 .with_stateless_route("/empty", |_r: Request| async { Response::empty(StatusCode::OK) })
                 .with_stateless_route("/panic", |_r: Request| async { if true { panic!("handler panic (scripted)") } Response::empty(StatusCode::OK) })
-                .with_cors_config("/cors", Cors::wildcard());
+                .with_cors_config("/cors", Cors::wildcard())
+                .with_monitor(moncfg);
             let _ = app.run(addr).await;
         });
     });
-    for _ in 0..200 { if TcpStream::connect(addr).is_ok() { return addr; } std::thread::sleep(Duration::from_millis(10)); }
+    for _ in 0..200 { if TcpStream::connect(addr).is_ok() { return (addr, mon); } std::thread::sleep(Duration::from_millis(10)); }
     panic!("app did not start");
 }
 
 fn main() {
     quiet_panics();
     let seed = seed_from_env();
-    let addr = start();
+    let (addr, mon) = start();
     let jobs: Vec<connlib::Job> = stdin_lines().filter_map(|l| serde_json::from_str::<serde_json::Value>(&l).ok()).map(|v| connlib::parse_job(&v)).collect();
     let queue = Arc::new(Mutex::new(jobs.into_iter().rev().collect::<Vec<_>>()));
     let par: usize = std::env::args().nth(1).and_then(|s| s.parse().ok()).unwrap_or(24);
     let mut hs = vec![];
     for _ in 0..par {
         let q = queue.clone();
+        let mon = mon.clone();
         hs.push(std::thread::spawn(move || loop {
             let job = { q.lock().unwrap().pop() };
             let job = match job { Some(j) => j, None => break };
-            let rec = connlib::run_job(&job, addr, seed);
+            let rec = connlib::run_job(&job, addr, seed, Some(&mon));
             util::out_line(&rec);
         }));
     }
